@@ -428,6 +428,9 @@ package cdcn
 //@   modifies this.depth_, sbtext(fieldaddr(this, result_))
 //@   decreases this.maximum_ - this.depth_, 5
 //@   ensures[C10] this.depth_ == old(this.depth_)
+// every association is written with its own key and the value the map holds under that key (the pairing a parse must recover)
+//@   hint[C10] before call formatAssociation#1: $arg1 == riface(keys[0]) && $arg2 == riface(rmapval(reflected, keys[0]))
+//@   hint[C10] before call formatAssociation#2: $arg1 == riface(keys[i]) && $arg2 == riface(rmapval(reflected, keys[i]))
 //@   loop 1:
 //@     invariant 0 <= i && this.depth_ == old(this.depth_) + 1 && this.depth_ <= this.maximum_ && len(keys) == size
 //@     decreases size - i
